@@ -113,7 +113,10 @@ Definition lists_of (oc : ocp) (pt : point) (single : bool) : mlists F :=
      L_xk := a_xk a ++ [last X []];
      L_xqk := a_xqk a;
      L_zk := repeat [] (S (N * M));
-     L_xr := []; L_zr := []; L_tr := [] |}.
+     L_xr := []; L_zr := []; L_tr := [];
+     L_poly := flat_map (@ds_poly F) (a_FF a);
+     L_polyq := flat_map (@ds_polyq F) (a_FF a);
+     L_polyz := [] |}.
 
 Definition horizon_is_var (h : horizon) : bool :=
   match h with HFree _ | HVar _ => true | _ => false end.
